@@ -36,6 +36,13 @@ Proof.
   cbn [map filter fst]. replace (s' =? s) with false by (symmetry; now apply N.eqb_neq). exact IH.
 Qed.
 
+(* the serials of the pages in file order *)
+Lemma map_fst_tag : forall s pgs, map fst (tag s pgs) = repeat s (length pgs).
+Proof.
+  intros s pgs. unfold tag. induction pgs as [|p pgs IH]; [reflexivity|].
+  cbn [map fst length repeat]. now rewrite IH.
+Qed.
+
 (* ---------- the pages of a sequence of packets of one stream ---------- *)
 
 (* packet = (header type argument, payload, granule argument) *)
@@ -948,6 +955,11 @@ Fixpoint add_each (pktss : list (list pkt3)) (cfgs : list track) (mk : track -> 
   | _, _ => []
   end.
 
+(* the serials of the pages one loop of startLocked writes: per track, one per
+   page of its header packet *)
+Definition hdr_trace (mk : track -> pkt3) (trs : list track) : list N :=
+  flat_map (fun tr => repeat (tr_serial tr) (npages (snd (fst (mk tr))))) trs.
+
 Definition page_step (rw : bool) (mk : track -> pkt3) (out : list N) (tr : track) :=
   write_page writer_table rw out tr (snd (fst (mk tr))) (fst (fst (mk tr))) (snd (mk tr)).
 
@@ -969,15 +981,17 @@ Lemma each_track_pages : forall rw (mk : track -> pkt3),
       each_track (page_step rw mk) (bytes_of log) trs = Ok (bytes_of log', trs') /\
       all3 (T3 rw log') trs' cfgs (add_each pktss cfgs mk) /\ others_ok rw log' others /\
       map tr_prev_granule trs' = map tr_prev_granule trs /\
-      (forall s, ~ In s (map tr_serial trs) -> mine s log' = mine s log).
+      (forall s, ~ In s (map tr_serial trs) -> mine s log' = mine s log) /\
+      map fst log' = map fst log ++ hdr_trace mk trs.
 Proof.
   intros rw mk Hmk trs. induction trs as [|tr trs IH]; intros cfgs pktss log others Hall Hoth Hnd Hdis.
   - inversion Hall; subst. exists log, []. cbn [each_track add_each map].
-    split; [reflexivity|]. split; [constructor|]. split; [exact Hoth|]. split; reflexivity.
+    split; [reflexivity|]. split; [constructor|]. split; [exact Hoth|]. split; [reflexivity|].
+    split; [reflexivity|]. unfold hdr_trace. cbn [flat_map]. rewrite app_nil_r. reflexivity.
   - inversion Hall as [| ? cfg pkts ? cfgs' pktss' (Hst & HR) Hrest]; subst.
     cbn [each_track]. unfold page_step at 1.
     destruct (write_page_own rw log tr pkts (snd (fst (mk tr))) (fst (fst (mk tr))) (snd (mk tr)) HR)
-      as (pgs & tr' & Hw & _ & _ & Hs & Hg & Hr & Hm & Hp & Ht & HR').
+      as (pgs & tr' & Hw & Hch & _ & Hs & Hg & Hr & Hm & Hp & Ht & HR').
     rewrite Hw.
     set (log1 := log ++ tag (tr_serial tr) pgs) in *.
     cbn [map] in Hnd. inversion Hnd as [| ? ? Hnotin Hnd']; subst.
@@ -995,18 +1009,21 @@ Proof.
       - apply Forall_forall. intros o Ho. unfold others_ok in Hoth. rewrite Forall_forall in Hoth.
         apply R_other; [exact (Hoth o Ho)|]. intros E.
         apply (Hdis tr o (or_introl eq_refl) Ho). symmetry. exact E. }
-    destruct (IH cfgs' pktss' log1 _ Hrest1 Hoth1 Hnd') as (log' & trs' & He & Hall' & Hoth' & Hgr & Hmine).
+    destruct (IH cfgs' pktss' log1 _ Hrest1 Hoth1 Hnd') as (log' & trs' & He & Hall' & Hoth' & Hgr & Hmine & Htrace).
     { intros t o Ht' [<- | Ho]; cbn [fst].
       - rewrite Hs. intros E. apply Hnotin. rewrite E. apply in_map. exact Ht'.
       - apply Hdis; [right; exact Ht' | exact Ho]. }
     rewrite He. exists log', (tr' :: trs').
     inversion Hoth' as [| ? ? Hhead Htail]; subst. cbn [fst snd] in Hhead.
-    split; [reflexivity|]. split; [| split; [exact Htail | split]].
+    split; [reflexivity|]. split; [| split; [exact Htail | split; [| split]]].
     + cbn [add_each]. constructor; [split; [exact Hst' | exact Hhead] | exact Hall'].
     + cbn [map]. rewrite Hg, Hgr. reflexivity.
     + intros s Hns. cbn [map] in Hns. rewrite Hmine by (intros Hin; apply Hns; right; exact Hin).
       unfold log1. rewrite mine_app, mine_tag_other, app_nil_r; [reflexivity|].
       intros E. apply Hns. left. exact E.
+    + rewrite Htrace. unfold log1, hdr_trace. cbn [flat_map].
+      rewrite map_app, map_fst_tag, <- app_assoc. do 2 f_equal.
+      unfold npages. rewrite (chain_length _ _ _ _ _ _ _ Hch). reflexivity.
 Qed.
 
 Lemma all3_nth : forall {A B C} (P : A -> B -> C -> Prop) la lb lc i a,
@@ -1082,12 +1099,31 @@ Lemma hdr_static : (forall a b, same_static a b -> hdr_id a = hdr_id b) /\
                    (forall a b, same_static a b -> hdr_tags a = hdr_tags b).
 Proof. split; intros a b H; apply (same_static_hdrs a b H). Qed.
 
+Lemma hdr_trace_static : forall (mk : track -> pkt3) rw log trs cfgs pktss,
+  (forall a b, same_static a b -> mk a = mk b) ->
+  all3 (T3 rw log) trs cfgs pktss -> hdr_trace mk trs = hdr_trace mk cfgs.
+Proof.
+  intros mk rw log trs cfgs pktss Hmk H. unfold hdr_trace.
+  induction H as [| a b c la lb lc (Hst & _) H IH]; [reflexivity|].
+  cbn [flat_map]. rewrite IH, (Hmk a b Hst). destruct Hst as (-> & _). reflexivity.
+Qed.
+
+(* the serials of the pages in file order: once writing has started the file
+   begins with one loop of ID-header pages and one loop of comment-header pages,
+   both in track order; every later page belongs to one of the tracks *)
+Definition known (cfgs : list track) (s : N) : Prop := In s (map tr_serial cfgs).
+Definition J (cfgs : list track) (started : bool) (log : list wpage) : Prop :=
+  started = true ->
+  exists rest, map fst log = hdr_trace hdr_id cfgs ++ hdr_trace hdr_tags cfgs ++ rest /\
+               Forall (known cfgs) rest.
+
 Lemma start_locked_inv : forall w cfgs pss log,
   minv w cfgs pss log ->
   exists w' log',
     start_locked w = Ok w' /\ mw_started w' = true /\ mw_rewriter w' = mw_rewriter w /\
     minv w' cfgs pss log' /\
-    (mw_started w = true -> w' = w /\ log' = log).
+    (mw_started w = true -> w' = w /\ log' = log) /\
+    (J cfgs (mw_started w) log -> J cfgs true log').
 Proof.
   intros w cfgs pss log (Hout & Hnd & Hlen & Hgr & Hst). unfold start_locked.
   destruct (mw_started w) eqn:Es.
@@ -1100,19 +1136,23 @@ Proof.
     rewrite Hout.
     destruct (each_track_pages (mw_rewriter w) hdr_id (proj1 hdr_static) _ _ _ [] [] Hall
                 (Forall_nil _) ltac:(rewrite Hser; exact Hnd) ltac:(intros t o _ [])) 
-      as (log1 & trs1 & He1 & Hall1 & _ & Hg1 & _).
+      as (log1 & trs1 & He1 & Hall1 & _ & Hg1 & _ & Htr1).
     rewrite He1.
     pose proof (all3_serials _ _ _ _ _ Hall1) as Hser1.
     destruct (each_track_pages (mw_rewriter w) hdr_tags (proj2 hdr_static) _ _ _ log1 [] Hall1
                 (Forall_nil _) ltac:(rewrite Hser1; exact Hnd) ltac:(intros t o _ []))
-      as (log2 & trs2 & He2 & Hall2 & _ & Hg2 & _).
+      as (log2 & trs2 & He2 & Hall2 & _ & Hg2 & _ & Htr2).
     rewrite He2.
     eexists. exists log2. split; [reflexivity|]. cbn [mw_started mw_rewriter].
-    split; [reflexivity|]. split; [reflexivity|]. split; [| discriminate].
-    unfold minv. cbn [mw_out mw_tracks mw_started mw_rewriter].
-    split; [reflexivity|]. split; [exact Hnd|]. split; [exact Hlen|].
-    split; [rewrite Hg2, Hg1; exact Hgr|].
-    rewrite add_each_hdrs in Hall2. exact Hall2.
+    split; [reflexivity|]. split; [reflexivity|]. split; [| split; [discriminate|]].
+    + unfold minv. cbn [mw_out mw_tracks mw_started mw_rewriter].
+      split; [reflexivity|]. split; [exact Hnd|]. split; [exact Hlen|].
+      split; [rewrite Hg2, Hg1; exact Hgr|].
+      rewrite add_each_hdrs in Hall2. exact Hall2.
+    + intros _ _. exists []. split; [| constructor].
+      rewrite Htr2, Htr1. cbn [map app]. rewrite app_nil_r.
+      rewrite (hdr_trace_static hdr_id _ _ _ _ _ (proj1 hdr_static) Hall).
+      rewrite (hdr_trace_static hdr_tags _ _ _ _ _ (proj2 hdr_static) Hall1). reflexivity.
 Qed.
 
 Lemma map_replace_nth : forall {A B} (f : A -> B) l i x,
@@ -1166,16 +1206,18 @@ Definition upd_pss (pss : list (list (list N * N))) (i : nat) (p : list N) :=
   end.
 
 Lemma multi_write_inv : forall w cfgs pss log i p,
-  minv w cfgs pss log ->
+  minv w cfgs pss log -> J cfgs (mw_started w) log ->
   exists log',
     minv (fst (multi_write w i p)) cfgs (upd_pss pss i p) log' /\
-    mw_rewriter (fst (multi_write w i p)) = mw_rewriter w.
+    mw_rewriter (fst (multi_write w i p)) = mw_rewriter w /\
+    J cfgs (mw_started (fst (multi_write w i p))) log'.
 Proof.
-  intros w cfgs pss log i p Hinv.
+  intros w cfgs pss log i p Hinv HJ.
   destruct p as [|b p'].
-  - exists log. split; [exact Hinv | reflexivity].
+  - exists log. split; [exact Hinv | split; [reflexivity | exact HJ]].
   - unfold multi_write, upd_pss.
-    destruct (start_locked_inv w cfgs pss log Hinv) as (w1 & log1 & Hs & Hst1 & Hrw1 & Hinv1 & _).
+    destruct (start_locked_inv w cfgs pss log Hinv) as (w1 & log1 & Hs & Hst1 & Hrw1 & Hinv1 & _ & HJ1).
+    specialize (HJ1 HJ).
     rewrite Hs.
     destruct Hinv1 as (Hout & Hnd & Hlen & Hgr & Hall). rewrite Hst1 in Hall.
     destruct (all3_lengths _ _ _ _ Hall) as (Hl1 & Hl2).
@@ -1193,8 +1235,14 @@ Proof.
       destruct (opus_sample_count (b :: p')) as [n | e |] eqn:Hn.
       * destruct (write_opus_own (mw_rewriter w1) log1 tr _ (b :: p') n HR Hn)
           as (pgs & tr' & Hw & Hst' & Hg' & HR').
-        rewrite Hout, Hw. cbn [fst mw_rewriter].
-        exists (log1 ++ tag (tr_serial tr) pgs). split; [| exact Hrw1].
+        rewrite Hout, Hw. cbn [fst mw_rewriter mw_started].
+        exists (log1 ++ tag (tr_serial tr) pgs). split; [| split; [exact Hrw1|]].
+        2:{ intros _. destruct (HJ1 eq_refl) as (rest & Hr1 & Hr2).
+            exists (rest ++ repeat (tr_serial tr) (length pgs)). split.
+            - rewrite map_app, map_fst_tag, Hr1, <- !app_assoc. reflexivity.
+            - apply Forall_app. split; [exact Hr2|]. apply Forall_forall. intros x Hx.
+              apply repeat_spec in Hx. subst x. unfold known.
+              destruct Hstat as (-> & _). apply in_map. exact (nth_error_In _ _ Hcfg). }
         unfold minv. cbn [mw_out mw_tracks mw_started mw_rewriter].
         split; [reflexivity|]. split; [exact Hnd|].
         split; [rewrite replace_nth_length; exact Hlen|].
@@ -1215,13 +1263,14 @@ Proof.
               split; [eapply same_static_trans; eauto|].
               destruct (data_pkts_snoc ps 0 (b :: p') n) as [Hd _]. rewrite Hd, app_assoc, <- Hprev.
               exact HR'.
-      * rewrite (write_opus_err _ _ _ _ e Hn). cbn [fst]. exists log1. split; [| exact Hrw1].
+      * rewrite (write_opus_err _ _ _ _ e Hn). cbn [fst]. exists log1.
+        split; [| split; [exact Hrw1 | rewrite Hst1; exact HJ1]].
         unfold minv. rewrite Hst1. auto.
       * exfalso. exact (opus_sample_count_no_panic _ Hn).
     + cbn [fst].
       assert (Hnone : nth_error pss i = None).
       { apply nth_error_None. apply nth_error_None in Etr. lia. }
-      rewrite Hnone. exists log1. split; [| exact Hrw1].
+      rewrite Hnone. exists log1. split; [| split; [exact Hrw1 | rewrite Hst1; exact HJ1]].
       replace (match opus_sample_count (b :: p') with Ok _ => pss | _ => pss end) with pss
         by (destruct (opus_sample_count (b :: p')); reflexivity).
       unfold minv. rewrite Hst1. auto.
@@ -1233,16 +1282,17 @@ Definition run_pss (pss : list (list (list N * N))) (ops : list (nat * list N)) 
   fold_left (fun pss op => upd_pss pss (fst op) (snd op)) ops pss.
 
 Lemma multi_run_inv : forall ops w cfgs pss log,
-  minv w cfgs pss log ->
+  minv w cfgs pss log -> J cfgs (mw_started w) log ->
   exists log', minv (multi_run w ops) cfgs (run_pss pss ops) log' /\
-               mw_rewriter (multi_run w ops) = mw_rewriter w.
+               mw_rewriter (multi_run w ops) = mw_rewriter w /\
+               J cfgs (mw_started (multi_run w ops)) log'.
 Proof.
-  induction ops as [|[i p] ops IH]; intros w cfgs pss log Hinv.
-  - exists log. split; [exact Hinv | reflexivity].
+  induction ops as [|[i p] ops IH]; intros w cfgs pss log Hinv HJ.
+  - exists log. split; [exact Hinv | split; [reflexivity | exact HJ]].
   - unfold multi_run, run_pss. cbn [fold_left fst snd].
-    destruct (multi_write_inv w cfgs pss log i p Hinv) as (log1 & H1 & Hrw1).
-    destruct (IH _ cfgs _ log1 H1) as (log2 & H2 & Hrw2).
-    exists log2. split; [exact H2 |]. unfold multi_run in Hrw2. rewrite Hrw2. exact Hrw1.
+    destruct (multi_write_inv w cfgs pss log i p Hinv HJ) as (log1 & H1 & Hrw1 & HJ1).
+    destruct (IH _ cfgs _ log1 H1 HJ1) as (log2 & H2 & Hrw2 & HJ2).
+    exists log2. split; [exact H2 |]. split; [| exact HJ2]. unfold multi_run in Hrw2. rewrite Hrw2. exact Hrw1.
 Qed.
 
 (* ---------- Close of the multi-track writer ---------- *)
@@ -1264,6 +1314,15 @@ Proof.
   - rewrite (replace_keeps_pos log k s1 P1' P1 k2 Hn Hlen). exact Hlast.
 Qed.
 
+Lemma map_fst_replace : forall (log : list wpage) k s P P',
+  nth_error log k = Some (s, P) -> map fst (replace_nth log k (s, P')) = map fst log.
+Proof.
+  induction log as [|x l IH]; intros k s P P' H; [destruct k; discriminate|].
+  destruct k as [|k]; cbn [nth_error replace_nth map] in *.
+  - injection H as ->. reflexivity.
+  - rewrite (IH k s P P' H). reflexivity.
+Qed.
+
 Lemma mark_all_spec : forall trs log,
   (forall tr, In tr trs -> last_ok true log tr /\ mine (tr_serial tr) log <> []) ->
   NoDup (map tr_serial trs) ->
@@ -1272,10 +1331,11 @@ Lemma mark_all_spec : forall trs log,
     (forall tr, In tr trs -> exists front P P',
         mine (tr_serial tr) log = front ++ [P] /\ mine (tr_serial tr) log' = front ++ [P'] /\
         eos_of (tr_serial tr) P P') /\
-    (forall s, ~ In s (map tr_serial trs) -> mine s log' = mine s log).
+    (forall s, ~ In s (map tr_serial trs) -> mine s log' = mine s log) /\
+    map fst log' = map fst log.
 Proof.
   induction trs as [|tr trs IH]; intros log Hall Hnd.
-  - exists log. split; [reflexivity|]. split; [intros tr []| reflexivity].
+  - exists log. split; [reflexivity|]. split; [intros tr []| split; reflexivity].
   - cbn [mark_all]. cbn [map] in Hnd. inversion Hnd as [| ? ? Hnotin Hnd']; subst.
     destruct (Hall tr (or_introl eq_refl)) as (Hl & Hne).
     destruct (mark_eos_spec log tr Hl Hne) as (k & P & P' & Hnth & Hpost & Heos & Hdl & Hm).
@@ -1283,7 +1343,7 @@ Proof.
     assert (Hother : forall s, s <> tr_serial tr -> mine s log1 = mine s log).
     { intros s Hs. pose proof (replace_keeps_mine s log k (tr_serial tr) P' P 0%nat Hnth) as H.
       cbn [skipn] in H. apply H. congruence. }
-    destruct (IH log1) as (log' & Hma & Htrs & Hrest).
+    destruct (IH log1) as (log' & Hma & Htrs & Hrest & Hfst).
     { intros tr2 Hin.
       assert (Hs2 : tr_serial tr <> tr_serial tr2)
         by (intros E; apply Hnotin; rewrite E; apply in_map; exact Hin).
@@ -1304,8 +1364,10 @@ Proof.
       * destruct (Htrs tr2 Hin) as (front & P2 & P2' & H1 & H2 & H3).
         exists front, P2, P2'. split; [| split; assumption].
         rewrite <- Hother; [exact H1|]. intros E. apply Hnotin. rewrite <- E. apply in_map. exact Hin.
-    + intros s Hs. cbn [map] in Hs. rewrite Hrest by (intros Hin; apply Hs; right; exact Hin).
-      apply Hother. intros E. apply Hs. left. symmetry. exact E.
+    + split.
+      * intros s Hs. cbn [map] in Hs. rewrite Hrest by (intros Hin; apply Hs; right; exact Hin).
+        apply Hother. intros E. apply Hs. left. symmetry. exact E.
+      * rewrite Hfst. unfold log1. apply (map_fst_replace log k (tr_serial tr) P P' Hnth).
 Qed.
 
 Lemma each_nil : forall trs log,
@@ -1387,24 +1449,29 @@ Proof.
     split; [apply same_static_refl | apply R_fresh; assumption].
 Qed.
 
-Lemma multi_stream_close : forall rw cfgs ops,
+(* multi_stream_close with the serials of the final pages in file order *)
+Lemma multi_stream_close_full : forall rw cfgs ops,
   NoDup (map tr_serial cfgs) -> Forall fresh cfgs ->
   exists log : list (N * opage),
     (exists w1, start_locked (multi_run (new_multi rw cfgs) ops) = Ok w1 /\ mw_out w1 = bytes_of log) /\
     (N.of_nat (length log) < 4294967296 ->
      exists final,
        close_multi (multi_run (new_multi rw cfgs) ops) = Ok (bytes_of final) /\
-       forall i cfg ps,
+       (forall i cfg ps,
          nth_error cfgs i = Some cfg ->
          nth_error (run_pss (map (fun _ => []) cfgs) ops) i = Some ps ->
          stream_shape (tr_serial cfg) ([hdr_id cfg; hdr_tags cfg] ++ data_pkts 0 ps) (gsum 0 ps)
-                      (mine (tr_serial cfg) final)).
+                      (mine (tr_serial cfg) final)) /\
+       exists rest, map fst final = hdr_trace hdr_id cfgs ++ hdr_trace hdr_tags cfgs ++ rest /\
+                    Forall (known cfgs) rest).
 Proof.
   intros rw cfgs ops Hnd Hfresh.
-  destruct (multi_run_inv ops _ cfgs _ [] (minv_new rw cfgs Hnd Hfresh)) as (log0 & Hinv0 & Hrw0).
+  destruct (multi_run_inv ops _ cfgs _ [] (minv_new rw cfgs Hnd Hfresh) ltac:(intros E; discriminate))
+    as (log0 & Hinv0 & Hrw0 & HJ0).
   set (w := multi_run (new_multi rw cfgs) ops) in *.
   set (pss := run_pss (map (fun _ => []) cfgs) ops) in *.
-  destruct (start_locked_inv w cfgs pss log0 Hinv0) as (w1 & log & Hs & Hst1 & Hrw1 & Hinv1 & _).
+  destruct (start_locked_inv w cfgs pss log0 Hinv0) as (w1 & log & Hs & Hst1 & Hrw1 & Hinv1 & _ & HJ1).
+  destruct (HJ1 HJ0 eq_refl) as (rest & Hrest1 & Hrest2).
   exists log. split; [exists w1; split; [exact Hs | apply Hinv1]|]. intros Hbound.
   destruct Hinv1 as (Hout & _ & Hlen & Hgr & Hall). rewrite Hst1 in Hall.
   assert (Hrw : mw_rewriter w1 = rw) by (rewrite Hrw1, Hrw0; reflexivity).
@@ -1439,10 +1506,11 @@ Proof.
     cbn [app] in Hpp. exact (packets_pages_nonempty _ _ _ _ _ Hpp). }
   unfold close_multi. rewrite Hs, Hrw.
   destruct rw.
-  - destruct (mark_all_spec (mw_tracks w1) log) as (log' & Hma & Hper & _).
+  - destruct (mark_all_spec (mw_tracks w1) log) as (log' & Hma & Hper & _ & Hfst).
     { intros tr Hin. destruct (Hmine_ne tr Hin). auto. }
     { exact Hndt. }
-    rewrite Hout, Hma. exists log'. split; [reflexivity|].
+    rewrite Hout, Hma. exists log'. split; [reflexivity|]. split.
+    2:{ exists rest. rewrite Hfst. split; assumption. }
     intros i cfg ps Hc Hp. destruct (Htr i cfg ps Hc Hp) as (tr & Ht & Hsr & (Hpp & _) & _).
     destruct (Hper tr (nth_error_In _ _ Ht)) as (front & P & P' & H1 & H2 & H3).
     rewrite Hsr in *. eapply shape_mark; [| exact H3 | exact H2]. rewrite <- H1. exact Hpp.
@@ -1453,11 +1521,39 @@ Proof.
       destruct (Hmine_ne tr Hin) as (Hne & _). pose proof (mine_length (tr_serial tr) log).
       rewrite u32_small by lia. destruct (mine (tr_serial tr) log); [congruence | cbn [length]; lia]. }
     destruct (each_nil (mw_tracks w1) log Hnz) as (nils & trs' & He & Hf).
-    rewrite Hout, He. exists (log ++ nils). split; [reflexivity|].
+    rewrite Hout, He. exists (log ++ nils). split; [reflexivity|]. split.
+    2:{ exists (rest ++ map fst nils). split.
+        - rewrite map_app, Hrest1, <- !app_assoc. reflexivity.
+        - apply Forall_app. split; [exact Hrest2|].
+          assert (Hn : Forall (fun s => In s (map tr_serial (mw_tracks w1))) (map fst nils)).
+          { clear - Hf.
+            induction Hf as [| tr sp trs nils (Hs & _) Hf IH]; [constructor|].
+            cbn [map]. constructor; [left; symmetry; exact Hs|].
+            eapply Forall_impl; [| exact IH]. intros a Ha. right. exact Ha. }
+          unfold known. rewrite <- Hser. exact Hn. }
     intros i cfg ps Hc Hp. destruct (Htr i cfg ps Hc Hp) as (tr & Ht & Hsr & (Hpp & Hidx & _) & Hg).
     destruct (mine_nils _ _ Hf Hndt tr (nth_error_In _ _ Ht)) as (nilP & Hm & Hn).
     rewrite Hsr in *. rewrite mine_app, Hm.
     eapply shape_nil; [exact Hpp | | reflexivity]. rewrite <- Hg, <- Hidx. exact Hn.
+Qed.
+
+Lemma multi_stream_close : forall rw cfgs ops,
+  NoDup (map tr_serial cfgs) -> Forall fresh cfgs ->
+  exists log : list (N * opage),
+    (exists w1, start_locked (multi_run (new_multi rw cfgs) ops) = Ok w1 /\ mw_out w1 = bytes_of log) /\
+    (N.of_nat (length log) < 4294967296 ->
+     exists final,
+       close_multi (multi_run (new_multi rw cfgs) ops) = Ok (bytes_of final) /\
+       forall i cfg ps,
+         nth_error cfgs i = Some cfg ->
+         nth_error (run_pss (map (fun _ => []) cfgs) ops) i = Some ps ->
+         stream_shape (tr_serial cfg) ([hdr_id cfg; hdr_tags cfg] ++ data_pkts 0 ps) (gsum 0 ps)
+                      (mine (tr_serial cfg) final)).
+Proof.
+  intros rw cfgs ops Hnd Hfresh.
+  destruct (multi_stream_close_full rw cfgs ops Hnd Hfresh) as (log & H1 & H2).
+  exists log. split; [exact H1|]. intros Hb. destruct (H2 Hb) as (final & Hc & Hs & _).
+  exists final. split; assumption.
 Qed.
 
 (* ---------- end-of-stream, all four writer variants ---------- *)
